@@ -41,6 +41,7 @@ type Config struct {
 	SwitchCost     int8          // non-default pick when the running thread cannot continue (0 = CHESS, 1 = delay bounding)
 	SelectCost     int8          // picking a ready select case other than the first in source order
 	TimerEarlyCost int8          // firing the next timer although threads are runnable; <0 disables
+	LurkCost       int8          // releasing a lurking thread (vrt.Lurk) before its time is up; 0 = 1
 	EarlyWindow    time.Duration // only timers due within this window may fire early (0 = no limit)
 	AsyncTimerChan bool          // true: pre-Go-1.23 timer channels (asynctimerchan=1)
 	MaxSteps       int           // scheduling-point cap (livelock guard); 0 = 1e6
@@ -107,6 +108,7 @@ type Thread struct {
 	inRunq  bool
 	h       H
 	spawned uint64
+	lurk    *rtimer // non-nil while the thread lurks (Lurk): the explorer may release it at any scheduling point
 }
 
 //go:norace
@@ -575,6 +577,13 @@ func (r *Runtime) reschedule(curRunnable bool) {
 			r.fireAt(next.when)
 			continue
 		}
+		nreal := len(en)
+		for _, t := range r.threads {
+			if t.lurk != nil && t.lurk.armed {
+				en = append(en, t)
+			}
+		}
+		r.enBuf = en
 		n := len(en)
 		timerOpt := -1
 		if next != nil && r.cfg.TimerEarlyCost >= 0 && next.when <= int64(r.cfg.Horizon) &&
@@ -595,7 +604,9 @@ func (r *Runtime) reschedule(curRunnable bool) {
 			costs := r.costBuf[:0]
 			for i := 0; i < len(en); i++ {
 				c := int8(0)
-				if i > 0 {
+				if i >= nreal {
+					c = max(r.cfg.LurkCost, 1)
+				} else if i > 0 {
 					if curRunnable {
 						c = r.cfg.PreemptCost
 					} else {
@@ -616,6 +627,14 @@ func (r *Runtime) reschedule(curRunnable bool) {
 			continue
 		}
 		nt := en[idx]
+		if idx >= nreal {
+			// release a lurking thread early and run it right away
+			nt.lurk.armed = false
+			nt.lurk = nil
+			absorb(nt, H{uint64(r.now), 0x1c})
+			nt.state = tRunnable
+			nt.blocked = ""
+		}
 		if nt == cur {
 			return
 		}
